@@ -43,7 +43,7 @@ fn params_for(kind: Kind, rng: &mut Rng, maxp: usize) -> Params {
 }
 
 fn run_scalar(ctx: &Ctx) -> Report {
-    let njobs = ctx.pick(480, 4800);
+    let njobs = ctx.pick(1920, 28800);
     let seed = ctx.seed;
     let maxlen = ctx.pick(5000usize, 20000usize);
     let jobs: Vec<usize> = (0..njobs).collect();
@@ -69,7 +69,7 @@ fn run_scalar(ctx: &Ctx) -> Report {
 }
 
 fn run_bars(ctx: &Ctx) -> Report {
-    let njobs = ctx.pick(480, 4800);
+    let njobs = ctx.pick(1920, 28800);
     let seed = ctx.seed;
     let maxlen = ctx.pick(4000usize, 15000usize);
     let amzn = amzn_bars(&format!("{}/examples/data/AMZN.csv", ctx.repo));
@@ -122,8 +122,8 @@ fn bar_alphabet() -> Vec<In> {
 }
 
 fn run_enum(ctx: &Ctx) -> Report {
-    let depth_b = ctx.pick(6, 7);
-    let depth_s = ctx.pick(7, 8);
+    let depth_b = ctx.pick(6, 8);
+    let depth_s = ctx.pick(7, 10);
     let balpha = bar_alphabet();
     let salpha: Vec<In> = [0.5, 1.0, 1.0 + f64::EPSILON, 3.5, 100.0].iter().map(|x| In::S(*x)).collect();
     let mut jobs = Vec::new();
